@@ -32,6 +32,8 @@ QUOTED_T = ['"q@"', '"two words @"', '"a;b;@"', '"#@"', '"@ ${v}"', '"esc\\"@"',
 VAR_T = ["${v@}", "${a@_b}", "$ENV{E@}", "${${n@}}", "pre${v@}post"]
 BRACKET_T = ["[[b@]]", "[=[b@]=]", "[=[x]]@]=]", "[[b @ c]]", "[==[]=]@]==]", "[[(@]]", '[["@]]', "[[#@]]"]
 SINGLE_T = IDENT_T + UNQ_T + QUOTED_T + VAR_T + BRACKET_T
+# values of set(): additionally quoted arguments spanning lines (continuation / embedded newline)
+SET_VALUE_T = SINGLE_T + ['"cont @\\\nnext"', '"nl @\nnext"']
 
 GENERIC_CMDS = ["message", "include", "list", "add_library", "find_package", "include_guard", "project",
                 "install", "string", "file", "target_link_libraries", "unset", "return", "my_custom_cmd",
@@ -145,6 +147,7 @@ class Profile:
 def _impl(p, depth, kind):
     body_kinds = "body-test" if kind in ("test", "section") else "body"
     d = {
+        "selfname": st.sampled_from(["self", "self", "self", "this", "_self", "SELF", "me"]),
         "cmd": st.sampled_from(["function", "function", "macro"]),
         "params": st.lists(ident(), min_size=0, max_size=5),   # after name (and self for members)
         "body": items(p, depth - 1, body_kinds, p.body_max),
@@ -172,7 +175,7 @@ def item(p, depth, ctx):
         alts += rep(f, 2)
     if want("set"):
         alts.append(st.fixed_dictionaries({"k": st.just("set"), "name": ident(),
-                                           "values": p.set_values if p.set_values is not None else arglist(0, 4),
+                                           "values": p.set_values if p.set_values is not None else arglist(0, 4, SET_VALUE_T),
                                            "doc": p.mdoc()}))
     if want("option"):
         alts.append(st.fixed_dictionaries({"k": st.just("option"), "name": ident(),
@@ -366,6 +369,9 @@ def _fin_items(lst, c, in_body):
         if k == "func":
             it["name"] = _dup_name(c, "func", _num(it["name"], c), dup)
             it["params"] = _num(it["params"], c)
+            if dup and c.n % 3 == 0 and c.last.get("func-params") is not None:
+                it["params"] = list(c.last["func-params"])      # a redefinition with the identical parameter list
+            c.last["func-params"] = list(it["params"])
             it["doc"] = _fin_doc(it["doc"], c)
             it["body"] = _fin_items(it["body"], c, True)
         elif k == "set":
@@ -373,7 +379,12 @@ def _fin_items(lst, c, in_body):
             it["values"] = _num(it["values"], c)
             it["doc"] = _fin_doc(it["doc"], c)
         elif k == "option":
-            it["name"] = _dup_name(c, "option", _num(it["name"], c), dup)
+            fresh_opt = _num(it["name"], c)
+            if dup and c.last.get("set") and c.n % 2 == 1:
+                it["name"] = c.last["set"][-1]          # an option named like an earlier set() variable
+                c.last.setdefault("option", []).append(it["name"])
+            else:
+                it["name"] = _dup_name(c, "option", fresh_opt, dup)
             it["help"] = _num(it["help"], c)
             it["default"] = _num(it["default"], c)
             it["doc"] = _fin_doc(it["doc"], c)
